@@ -8,6 +8,7 @@ from .. import gen as G
 from .. import arith as A
 
 ID = 'C15'
+TECHNIQUE = 'runtime monitoring: reduction / linear-algebra events by the NumPy, method and function routes judged against the same function on object arrays of exact Fractions'
 TITLE = 'reductions and linear algebra exact'
 RULE = ('events sum, cumsum, prod, cumprod, dot, matmul, trace, max, min, sort, clip, transpose, diagonal called through NumPy (np.f(x)), through the '
         'method (x.f()) and through the fxpmath function: the result must be an Fxp whose values (code*LSB as Fractions) equal the same NumPy function '
